@@ -3124,6 +3124,9 @@ impl Interpreter {
                 arguments: args.clone(),
                 new_target: JsValue::Undefined,
                 trampoline_stack: Vec::new(), // Generators run at top level
+                this_value: None,             // supplied by the caller below
+                saved_env_stack: Vec::new(),
+                pending_completion: None,
             };
 
             // Create guard for the VM registers
